@@ -9,11 +9,11 @@
 namespace verif {
 const PropertyInfo kInfo = {
     "C24", 8, 8, 50,
-    "tape -> Node with fetch_max_parallel_requests 0..3, attempt limit 1..6, initial back-off 1..8 s, max back-off = initial * 2^(0..8), success interval 1..10 s. Two announcing "
+    "tape -> Node with fetch_max_parallel_requests 0..3, attempt limit 1..6, 0 (unlimited) or 40, initial back-off 1..8 s, max back-off = initial * 2^(0..8), success interval 1..10 s. Two announcing "
     "peers: A with a live session on a socketpair (requests can be sent: dispatch succeeds) and B with a key but no session and no endpoint (dispatch fails at once); A's session "
     "can be dropped and re-attached. History over 4 foreign chunks (real manifests from a publisher node, expiry 40..400 s): assigned-fetch ANNOUNCE from A or B (incl. "
     "re-announce while the request is in flight, by the same or the other peer), chunk arrival (receive_chunk with the genuine ciphertext), advance (to the next retry instant "
-    "exactly / -1ns / +1ns / to manifest expiry / random), tick. Oracle (state read through NodeTestAccess after every op): for each peer the in-use request count equals the "
+    "exactly / -1ns / +1ns / to manifest expiry / random), tick, retry streak (advance to the next retry instant + tick, 8..47 times in a row). Oracle (state read through NodeTestAccess after every op): for each peer the in-use request count equals the "
     "number of pending fetches in flight to it and never exceeds the limit (when non-zero) — hence zero when nothing is outstanding; after the k-th consecutive failed dispatch of "
     "a fetch the next attempt is due exactly min(max_backoff, initial*2^(k-1)) later; a pending fetch is gone immediately after the chunk is received, after the first tick at/after "
     "its manifest expiry, and after a failed dispatch that reaches the attempt limit. Non-trivial: a re-announce of an in-flight fetch, or >= 3 consecutive failures."};
@@ -42,7 +42,8 @@ void run_case(Ctx& c) {
     const Tape& t = c.tape;
     Config cfg;
     cfg.fetch_max_parallel_requests = static_cast<std::uint16_t>(t.h(0) % 4);
-    cfg.fetch_retry_attempt_limit = static_cast<std::uint8_t>(1 + t.h(1) % 6);
+    static const std::uint8_t kAttemptLimits[8] = {1, 2, 3, 4, 5, 6, 0 /* unlimited */, 40};
+    cfg.fetch_retry_attempt_limit = kAttemptLimits[t.h(1) % 8];
     cfg.fetch_retry_initial_backoff = seconds(1 + t.h(2) % 8);
     cfg.fetch_retry_max_backoff = cfg.fetch_retry_initial_backoff * (1 << (t.h(3) % 9));
     cfg.fetch_retry_success_interval = seconds(1 + t.h(4) % 10);
@@ -140,6 +141,24 @@ void run_case(Ctx& c) {
     for (std::size_t i = 0; i < t.nrec(); ++i) {
         Rec r = t.r(i);
         int k = r.a(0) % 4;
+        if (r.op() % 16 == 15) {
+            // a streak of failed attempts: go to the next retry instant and tick, up to 8..47 times in a row (with an
+            // unlimited or large attempt limit the doubling has to stay at the maximum for as long as the manifest lives)
+            unsigned n = 8 + r.a(1) % 40, done = 0;
+            for (; done < n; ++done) {
+                TP next = TP::max();
+                for (auto& [key, f] : vnode::Access::pending_fetches(node))
+                    if (f.next_attempt > now() && f.next_attempt != TP::max()) next = std::min(next, f.next_attempt);
+                if (next == TP::max()) break;
+                vclock::advance(next - now());
+                node.tick();
+                A.drain();
+                observe("tick in a retry streak", true);
+            }
+            c.note("|streak(%u)", done);
+            if (done >= 12) c.nt("retry_streak_of_12_or_more");
+            continue;
+        }
         switch (r.op() % 8) {
             case 0: case 1: case 2: {
                 bool fromA = (r.a(1) & 1) != 0;
